@@ -379,3 +379,63 @@ Proof.
   pose proof (event_bytes_length p Hpt) as Hb. unfold len_opts in Hb. rewrite Hps in Hb.
   unfold event_fits in Hfp. destruct Hfp as [Hfp|[Hw Hfp]]; [left; lia|right; lia].
 Qed.
+
+(* ------------------------------------------------------------------ *)
+(* Send with Config.GlobalFormat: Fmt only rewrites the last parameter  *)
+(* ------------------------------------------------------------------ *)
+
+Lemma global_format_frame e :
+  se_tagov (global_format e) = se_tagov e /\ se_source (global_format e) = se_source e /\
+  se_command (global_format e) = se_command e /\
+  (se_params e <> [] -> se_params (global_format e) <> []) /\
+  length (se_params (global_format e)) = length (se_params e) /\
+  removelast (se_params (global_format e)) = removelast (se_params e).
+Proof.
+  unfold global_format. destruct (se_params e) as [|p ps] eqn:Ep; [rewrite Ep; repeat split; auto|].
+  destruct (last (p :: ps) []); [rewrite Ep; repeat split; auto; discriminate|].
+  destruct (is_msg_cmd (se_command e) || streqb (se_command e) TOPIC); [|rewrite Ep; repeat split; auto; discriminate].
+  unfold with_params; cbn [se_tagov se_source se_command se_params].
+  rewrite set_last_snoc by discriminate. rewrite removelast_snoc. repeat split.
+  - intros _. destruct (removelast (p :: ps)); discriminate.
+  - rewrite app_length. cbn [length].
+    pose proof (@app_removelast_last _ (p :: ps) [] ltac:(discriminate)) as E.
+    apply (f_equal (@length str)) in E. rewrite app_length in E. cbn [length] in E. cbn [length]. lia.
+Qed.
+
+(* every line written is within the limit of the FORMATTED message's command and target *)
+Theorem send_gf_fits_wire st e es :
+  se_tagov e = 0 -> se_source e = None -> se_params e <> [] -> is_msg_cmd (se_command e) = true ->
+  send_gf st e = Ok es -> (cmd_target_len (global_format e) <= max_event_length st)%Z ->
+  Forall (fun p =>
+    (Z.of_nat (length (event_bytes p)) <= max_event_length st)%Z \/
+    ((max_event_length st - cmd_target_len (global_format e) < 4)%Z /\
+     (Z.of_nat (length (event_bytes p)) <= cmd_target_len (global_format e) + 4)%Z)) es.
+Proof.
+  intros Ht Hs Hne Hm H Hc. destruct (global_format_frame e) as (F1 & F2 & F3 & F4 & _).
+  apply (send_fits_wire st (global_format e) es); try assumption.
+  - rewrite F1. exact Ht.
+  - rewrite F2. exact Hs.
+  - apply F4. exact Hne.
+  - rewrite F3. exact Hm.
+Qed.
+
+(* the pieces are those of the FORMATTED event: split as the CTCP it has become *)
+Theorem send_gf_shape st e es : send_gf st e = Ok es ->
+  let f := global_format e in
+  es = [f] \/
+  (se_params f <> [] /\ is_msg_cmd (se_command f) = true /\
+   exists text wrap w pieces,
+     split_message text w = Ok pieces /\
+     es = List.map (fun q => with_params f (set_last (se_params f) (wrap q))) pieces /\
+     Forall (same_frame f) es /\
+     match ctcp_of f with
+     | Some c => text = Ctcp.c_text c /\ wrap = ctcp_wrap (Ctcp.c_command c) /\ w = (max_event_length st - cmd_target_len f)%Z
+     | None => text = last (se_params f) [] /\ wrap = (fun q => q) /\ w = (max_event_length st - cmd_target_len f)%Z
+     end).
+Proof. intros H. apply (event_split_shape _ _ _ H). Qed.
+
+Example send_gf_ctcp_example :
+  let e := message (bs "#c") (bs "{ctcp}ACTION aaa bbb{ctcp}") in
+  ctcp_of e = None /\ ctcp_of (global_format e) <> None /\
+  event_split (global_format e) 26 = Ok [action (bs "#c") (bs "aaa"); action (bs "#c") (bs "bbb")].
+Proof. vm_compute. repeat split; discriminate. Qed.
